@@ -178,9 +178,44 @@ def _padded_multi(check: Check):
   repo = check.repo
   fi = repo.func(CD, 'padded_batch_client_datasets')
   ff = FuncFlow.of(repo, fi)
-  # buf.append(X) paired with buf_size += len(X);  buf.clear() paired with buf_size = 0
-  appends = [c for _, c in ff.calls() if isinstance(c.func, ast.Attribute) and txt(c.func.value) == 'buf' and c.func.attr == 'append']
-  clears = [c for _, c in ff.calls() if isinstance(c.func, ast.Attribute) and txt(c.func.value) == 'buf' and c.func.attr == 'clear']
+  # ---- roles
+  BUF = BSZ = SIZE = START = FM = None
+  for _, c in ff.calls():
+    if wmean.repo_fn(ff, c) == f'{CD}:concat_examples' and c.args and isinstance(c.args[0], ast.Name):
+      BUF = c.args[0].id
+    if wmean.repo_fn(ff, c) == f'{CD}:_pick_final_batch_size' and c.args and isinstance(c.args[0], ast.Name):
+      BSZ = c.args[0].id
+  for ds in ff.rd.defs_at.values():
+    for d in ds:
+      if isinstance(d.value, ast.Call) and ff.ext(d.value.func) == 'builtins.len' and wmean._loop_of(ff, d.node.ast) is not None:
+        SIZE = d.name
+      if isinstance(d.value, ast.Call) and ff.ext(d.value.func) == 'numpy.ones':
+        FM = d.name
+  whiles = [n.ast for n in ff.cfg.nodes if n.kind == 'while']
+  for w in whiles:
+    t = w.test
+    if isinstance(t, ast.Compare) and isinstance(t.left, ast.BinOp) and isinstance(t.left.left, ast.Name):
+      START = t.left.left.id
+  if BUF is None:
+    # the list that collects partial rows: receiver of .append(...) calls next to a `+=` on a counter
+    cands = {}
+    for _, c in ff.calls():
+      if isinstance(c.func, ast.Attribute) and c.func.attr == 'append' and isinstance(c.func.value, ast.Name):
+        cands[c.func.value.id] = cands.get(c.func.value.id, 0) + 1
+    BUF = max(cands, key=cands.get) if cands else None
+  if BSZ is None and BUF is not None:
+    for _, c in ff.calls():
+      if isinstance(c.func, ast.Attribute) and c.func.attr == 'append' and txt(c.func.value) == BUF:
+        blk = _block_of(ff, ff.module.enclosing_stmt(c))
+        for s_ in blk:
+          if isinstance(s_, ast.AugAssign) and isinstance(s_.op, ast.Add) and isinstance(s_.target, ast.Name):
+            BSZ = s_.target.id
+  if not all([BUF, BSZ, SIZE, START]):
+    check.inconclusive('R-CONSERVE.pairs', fi, 'roles', f'cannot recover roles buf={BUF} buf_size={BSZ} size={SIZE} start={START}')
+    return
+  B = 'hparams.batch_size'
+  appends = [c for _, c in ff.calls() if isinstance(c.func, ast.Attribute) and txt(c.func.value) == BUF and c.func.attr == 'append']
+  clears = [c for _, c in ff.calls() if isinstance(c.func, ast.Attribute) and txt(c.func.value) == BUF and c.func.attr == 'clear']
   seen = set()
   appends = [c for c in appends if not (id(c) in seen or seen.add(id(c)))]
   clears = [c for c in clears if not (id(c) in seen or seen.add(id(c)))]
@@ -192,55 +227,53 @@ def _padded_multi(check: Check):
     arg = c.args[0]
     want = None
     if isinstance(arg, ast.Name):  # whole examples of a client: += size
-      want = {'size'}
+      want = {SIZE}
     elif isinstance(arg, ast.Call) and wmean.repo_fn(ff, arg) == f'{CD}:slice_examples':
       sl = arg.args[1]
       if isinstance(sl, ast.Call) and len(sl.args) == 2:
         want = {f'{txt(sl.args[1])} - {txt(sl.args[0])}'}
       elif isinstance(sl, ast.Call) and len(sl.args) == 1:
-        want = None  # head slice completes a batch: followed by a flush (clear), not by an increment
-        flush = any(isinstance(s, ast.Expr) and isinstance(s.value, ast.Call) and s.value in clears for s in block)
+        flush = any(isinstance(s_, ast.Expr) and isinstance(s_.value, ast.Call) and s_.value in clears for s_ in block)
         ok = ok and flush
         detail.append(f'head slice followed by flush={flush}')
         continue
-    incs = [s for s in block if isinstance(s, ast.AugAssign) and txt(s.target) == 'buf_size' and isinstance(s.op, ast.Add)]
+    incs = [s_ for s_ in block if isinstance(s_, ast.AugAssign) and txt(s_.target) == BSZ and isinstance(s_.op, ast.Add)]
     good = len(incs) == 1 and want is not None and txt(incs[0].value) in want
-    detail.append(f'{txt(c)[:40]} with buf_size += {txt(incs[0].value) if incs else "?"}: {good}')
+    detail.append(f'append with size += {txt(incs[0].value) if incs else "?"}: {good}')
     ok = ok and good
   for c in clears:
     st = ff.module.enclosing_stmt(c)
     block = _block_of(ff, st)
-    z = any(isinstance(s, ast.Assign) and txt(s.targets[0]) == 'buf_size' and isinstance(s.value, ast.Constant) and s.value.value == 0 for s in block)
+    z = any(isinstance(s_, ast.Assign) and txt(s_.targets[0]) == BSZ and isinstance(s_.value, ast.Constant) and s_.value.value == 0 for s_ in block)
     ok = ok and z
-    detail.append(f'buf.clear() with buf_size = 0: {z}')
-  check.ob('R-CONSERVE.pairs', fi, 'buf / buf_size updated together', ok and len(appends) >= 3 and len(clears) >= 1,
-           'buf_size is always the number of rows held in buf: ' + '; '.join(detail))
+    detail.append(f'clear with size = 0: {z}')
+  check.ob('R-CONSERVE.pairs', fi, 'row buffer / its size updated together', ok and len(appends) >= 3 and len(clears) >= 1,
+           'the size counter is always the number of rows held in the buffer: ' + '; '.join(detail))
   # contiguity of the slices taken from one client
-  whiles = [n.ast for n in ff.cfg.nodes if n.kind == 'while']
   ok_w = False
   for w in whiles:
     sl = [x for x in ast.walk(w) if isinstance(x, ast.Call) and txt(x.func) == 'slice' and len(x.args) == 2]
-    adv = [s for s in w.body if isinstance(s, ast.AugAssign) and txt(s.target) == 'start' and txt(s.value) == 'hparams.batch_size']
+    adv = [s_ for s_ in w.body if isinstance(s_, ast.AugAssign) and txt(s_.target) == START and txt(s_.value) == B]
     if sl and adv:
-      ok_w = txt(sl[0].args[0]) == 'start' and txt(sl[0].args[1]) == 'start + hparams.batch_size'
-  tail = [x for x in ast.walk(fi.node) if isinstance(x, ast.Call) and txt(x.func) == 'slice' and len(x.args) == 2 and txt(x.args[1]) == 'size']
-  ok_t = bool(tail) and txt(tail[0].args[0]) == 'start' and any(pol and txt(t) == 'start < size' for t, pol in guards_of(ff, tail[0]))
+      ok_w = txt(sl[0].args[0]) == START and txt(sl[0].args[1]) == f'{START} + {B}'
+  tail = [x for x in ast.walk(fi.node) if isinstance(x, ast.Call) and txt(x.func) == 'slice' and len(x.args) == 2 and txt(x.args[1]) == SIZE]
+  ok_t = bool(tail) and txt(tail[0].args[0]) == START and any(pol and txt(t) == f'{START} < {SIZE}' for t, pol in guards_of(ff, tail[0]))
   head = [x for x in ast.walk(fi.node) if isinstance(x, ast.Call) and txt(x.func) == 'slice' and len(x.args) == 1]
-  ok_h = bool(head) and txt(head[0].args[0]) == 'start'
+  ok_h = bool(head) and txt(head[0].args[0]) == START
   check.ob('R-CONSERVE.contiguous', fi, 'slice(start) | slice(start, start+B), start += B | slice(start, size)', ok_w and ok_t and ok_h,
            f'a client\'s rows are consumed as consecutive slices [0,start) [start,start+B)... [start,size): head={ok_h}, whole '
            f'batches={ok_w}, tail={ok_t}')
   # final flush
-  fin = any(isinstance(x, ast.Call) and wmean.repo_fn(ff, x) == f'{CD}:_pick_final_batch_size' and txt(x.args[0]) == 'buf_size'
+  fin = any(isinstance(x, ast.Call) and wmean.repo_fn(ff, x) == f'{CD}:_pick_final_batch_size' and txt(x.args[0]) == BSZ
             for x in ast.walk(fi.node))
   last = fi.node.body[-1]
-  flush = isinstance(last, ast.If) and txt(last.test) == 'buf' and any(isinstance(x, ast.Yield) for x in ast.walk(last))
-  check.ob('R-CONSERVE.tail', fi, 'if buf: yield pad_examples(concat(buf), pick(buf_size, ...))', fin and flush,
-           'rows still buffered at the end are emitted as the (padded) final batch sized from buf_size')
+  flush = isinstance(last, ast.If) and txt(last.test) == BUF and any(isinstance(x, ast.Yield) for x in ast.walk(last))
+  check.ob('R-CONSERVE.tail', fi, 'if buffer: yield pad_examples(concat(buffer), pick(size, ...))', fin and flush,
+           'rows still buffered at the end are emitted as the (padded) final batch sized from the row counter')
   # full batches carry the all-True mask
   ym = [y for _, y in ff.yields() if isinstance(y.value, ast.Call) and wmean.repo_fn(ff, y.value) == f'{CD}:attach_mask']
-  okm = len(ym) >= 2 and all(txt(y.value.args[1]) == 'full_mask' for y in ym)
-  check.ob('R-CONSERVE.mask', fi, 'attach_mask(preprocessor(...), full_mask)', okm, 'every full batch is emitted with an all-True mask')
+  okm = len(ym) >= 2 and FM is not None and all(txt(y.value.args[1]) == FM for y in ym)
+  check.ob('R-CONSERVE.mask', fi, 'attach_mask(preprocessor(...), all-True mask)', okm, 'every full batch is emitted with an all-True mask')
 
 
 def _block_of(ff: FuncFlow, st: ast.stmt) -> List[ast.stmt]:
@@ -259,31 +292,46 @@ def _shuffle_batch(check: Check):
   gff = FuncFlow.of(repo, gen)
   ok_enum = False
   for n in gff.cfg.nodes:
-    if n.kind == 'for' and isinstance(n.ast.iter, ast.Call) and gff.ext(n.ast.iter.func) == 'builtins.range' and txt(n.ast.iter.args[0]) == 'len(dataset)':
-      yy = [x for x in ast.walk(n.ast) if isinstance(x, ast.Yield)]
-      ok_enum = len(yy) == 1 and isinstance(yy[0].value, ast.Tuple) and txt(yy[0].value.elts[0]) == 'dataset.raw_examples' and txt(
-          yy[0].value.elts[1]) == n.ast.target.id
+    if n.kind == 'for' and isinstance(n.ast.iter, ast.Call) and gff.ext(n.ast.iter.func) == 'builtins.range' and len(n.ast.iter.args) == 1:
+      a = n.ast.iter.args[0]
+      outer_loop = wmean._loop_of(gff, n.ast)
+      dsn = outer_loop.target.id if isinstance(outer_loop, ast.For) and isinstance(outer_loop.target, ast.Name) else None
+      if isinstance(a, ast.Call) and gff.ext(a.func) == 'builtins.len' and txt(a.args[0]) == dsn:
+        yy = [x for x in ast.walk(n.ast) if isinstance(x, ast.Yield)]
+        ok_enum = len(yy) == 1 and isinstance(yy[0].value, ast.Tuple) and txt(yy[0].value.elts[0]) == f'{dsn}.raw_examples' and txt(
+            yy[0].value.elts[1]) == n.ast.target.id
   check.ob('R-CONSERVE.items', gen, 'for i in range(len(dataset)): yield (dataset.raw_examples, i)', ok_enum,
            'every row of every dataset is enumerated exactly once as an (examples, index) item')
   ff = FuncFlow.of(repo, outer)
   check.analysed(outer)
-  # shuffle stage takes all items
   sh = [c for _, c in ff.calls() if wmean.repo_fn(ff, c) == f'{CD}:buffered_shuffle']
-  ok_sh = len(sh) == 1 and [ff.param_of(a) or txt(a) for a in sh[0].args][1:] == ['buffer_size', 'rng'] and txt(sh[0].args[0]) == 'it'
-  # batch assembly
+  it_ok = False
+  if len(sh) == 1 and isinstance(sh[0].args[0], ast.Name):
+    it_ok = all(isinstance(d.value, ast.Call) and ff.callee(d.value).kind == 'func' and ff.callee(d.value).func is gen
+                for d in ff.defs_for(sh[0].args[0])) and bool(ff.defs_for(sh[0].args[0]))
+  ok_sh = len(sh) == 1 and [ff.param_of(a) for a in sh[0].args][1:] == ['buffer_size', 'rng'] and it_ok
   ok_b = False
+  BUF = None
   for n in ff.cfg.nodes:
     if n.kind == 'for' and n.ast.iter is (sh[0] if sh else None):
       body = n.ast.body
-      app = [s for s in body if isinstance(s, ast.Expr) and isinstance(s.value, ast.Call) and txt(s.value.func) == 'buf.append' and txt(
-          s.value.args[0]) == n.ast.target.id]
-      full = [s for s in body if isinstance(s, ast.If) and txt(s.test) == 'len(buf) == batch_size']
+      app = [s_ for s_ in body if isinstance(s_, ast.Expr) and isinstance(s_.value, ast.Call) and isinstance(s_.value.func, ast.Attribute) and
+             s_.value.func.attr == 'append' and txt(s_.value.args[0]) == n.ast.target.id]
+      if len(app) == 1:
+        BUF = txt(app[0].value.func.value)
+      full = [s_ for s_ in body if isinstance(s_, ast.If) and txt(s_.test) == f'len({BUF}) == batch_size']
       ok_b = len(app) == 1 and len(full) == 1 and any(isinstance(x, ast.Yield) for x in ast.walk(full[0])) and any(
-          isinstance(x, ast.Call) and txt(x.func) == 'buf.clear' for x in ast.walk(full[0]))
+          isinstance(x, ast.Call) and txt(x.func) == f'{BUF}.clear' for x in ast.walk(full[0]))
   last = outer.node.body[-1]
-  ok_tail = isinstance(last, ast.If) and txt(last.test) == 'buf' and any(isinstance(x, ast.Yield) for x in ast.walk(last))
-  row = all('slice(i, i + 1)' in txt(y.value) for _, y in ff.yields() if y.value is not None)
-  check.ob('R-CONSERVE.batches', outer, 'append; if len(buf) == batch_size: yield, clear; ...; if buf: yield', ok_sh and ok_b and ok_tail and row,
+  ok_tail = isinstance(last, ast.If) and txt(last.test) == BUF and any(isinstance(x, ast.Yield) for x in ast.walk(last))
+  # one row per item: slice(i, i + 1) of the item's own examples
+  row = True
+  for _, y in ff.yields():
+    if y.value is None:
+      continue
+    sls = [x for x in ast.walk(y.value) if isinstance(x, ast.Call) and txt(x.func) == 'slice']
+    row = row and len(sls) == 1 and len(sls[0].args) == 2 and txt(sls[0].args[1]) == f'{txt(sls[0].args[0])} + 1'
+  check.ob('R-CONSERVE.batches', outer, 'append; if len(buffer) == batch_size: yield, clear; ...; if buffer: yield', ok_sh and ok_b and ok_tail and row,
            f'every shuffled item lands in exactly one batch (shuffle over all items={ok_sh}, assemble/flush={ok_b}, final partial '
            f'batch emitted={ok_tail}, one row per item={row})')
 
